@@ -17,6 +17,7 @@ import (
 	"runtime/debug"
 	"sort"
 	"strconv"
+	"time"
 
 	"github.com/openGemini/openGemini/engine/immutable"
 	"verifharness/internal/gen"
@@ -550,6 +551,27 @@ func runHistory(idx int, work string, nser, nwal int, auto bool, in []Op, qr *ge
 	return
 }
 
+// guarded runs one history under a watchdog: a read or reorganisation that never returns (e.g. a merge loop that stops
+// making progress) must not stall the whole check until its global timeout. On expiry the history is reported with
+// Crash = "timeout ..." (its ops are the failing input) and the process exits with status 3.
+func guarded(enc *json.Encoder, idx, nser, nwal int, auto bool, ops []Op, f func() History) History {
+	limit := 240 * time.Second
+	if v, err := strconv.Atoi(os.Getenv("VERIF_C02_HISTORY_TIMEOUT_S")); err == nil && v > 0 {
+		limit = time.Duration(v) * time.Second
+	}
+	done := make(chan History, 1)
+	go func() { done <- f() }()
+	select {
+	case out := <-done:
+		return out
+	case <-time.After(limit):
+		_ = enc.Encode(History{Case: idx, NSer: nser, NWal: nwal, Auto: auto, In: ops, Ops: ops,
+			Crash: fmt.Sprintf("timeout: the history did not finish within %s (an operation or a read never returned)", limit)})
+		os.Exit(3)
+	}
+	return History{}
+}
+
 // inputOps: the generated ops of a stored history (steps recorded from background ticks are re-derived, not replayed)
 func inputOps(h History) []Op {
 	if len(h.In) > 0 {
@@ -633,7 +655,10 @@ func main() {
 			if json.Unmarshal(b, &h) != nil {
 				continue
 			}
-			out := runHistory(100000+idx, work, h.NSer, h.NWal, h.Auto, inputOps(h), gen.FromEnv(2002).Fork())
+			hh, cidx := h, 100000+idx
+			out := guarded(enc, cidx, hh.NSer, hh.NWal, hh.Auto, inputOps(hh), func() History {
+				return runHistory(cidx, work, hh.NSer, hh.NWal, hh.Auto, inputOps(hh), gen.FromEnv(2002).Fork())
+			})
 			_ = enc.Encode(out)
 			idx++
 		}
@@ -650,7 +675,7 @@ func main() {
 			b, _ := json.Marshal(History{Case: i, NWal: nwal, NSer: nser, Ops: ops})
 			fmt.Fprintf(os.Stderr, "BEGIN %s\n", b)
 		}
-		out := runHistory(i, work, nser, nwal, auto, ops, r.Fork())
+		out := guarded(enc, i, nser, nwal, auto, ops, func() History { return runHistory(i, work, nser, nwal, auto, ops, r.Fork()) })
 		_ = enc.Encode(out)
 	}
 }
